@@ -186,6 +186,30 @@ class LabelHole(Hole):
         return f"<label {self.term}>"
 
 
+class StrHole(Hole):
+    """A fully symbolic piece of text: a z3 String term (used for "for all strings" rejection obligations)."""
+
+    def __init__(self, term, excluded=''):
+        self.term = term
+        self.excluded = excluded
+
+    def __repr__(self):
+        return f"<str {self.term}>"
+
+
+isfloat = None
+floatval = None
+
+
+def float_functions():
+    """Uninterpreted view of float(): isfloat(text) says whether float() accepts the text, floatval its value."""
+    global isfloat, floatval
+    if isfloat is None:
+        isfloat = z3.Function('isfloat', z3.StringSort(), BS)
+        floatval = z3.Function('floatval', z3.StringSort(), RS)
+    return isfloat, floatval
+
+
 class OpaqueHole(Hole):
     """Text whose content is irrelevant to the obligation (messages, rendered values)."""
 
